@@ -264,7 +264,7 @@ def plan(prop, tier, seed, budget):
                     'the scope x {foreach_const, foreach, foreach(erase), clear+reuse}. Non-trivial: an enumeration/clear while a grow is '
                     'pending with an element already relocated beyond the old bucket count AND one while a shrink is pending.')
         else:
-            sc = ['3:3:0,2,4:0,1', '3:4:0,1,3:0,3'] if q else ['4:5:0,1,2,3,5:0,3', '4:6:0,1,3,5:0,1,3', '5:6:1,3,7:0,3']
+            sc = ['3:3:0,2,4:0,1', '3:4:0,1,3:0,3', '3:4:0,1,3,5:0,1,3'] if q else ['3:4:0,1,3,5:0,1,3', '4:5:0,1,2,3,5:0,3', '4:6:0,1,3,5:0,1,3', '5:6:1,3,7:0,3']
             rule = ('case = hash history with UNIQUE keys and logging hash functions (every call appends (function, k, m) to a per-op log); '
                     'oracle = (1) after every satisfiable resize(n,f): cstl_hash_load == size/n; (2) a keyed op while a rehash is pending '
                     'logs the lookup under the current and under the requested geometry, then only relocation calls into the requested '
@@ -275,7 +275,7 @@ def plan(prop, tier, seed, budget):
         P = dict(
             level='exploration',
             builds=[('hash', 'asan')] + ([] if q else [('hash', 'rel'), ('hash', 'fuzz')]),
-            jobs=[g1_jobs('hash', sc, 200000 if q else 3000000), g2_jobs('hash', (200000 if prop == 'C04' else 150000) if q else 1200000)] +
+            jobs=[g1_jobs('hash', sc, 200000 if q else 3000000), g2_jobs('hash', (200000 if prop == 'C04' else 100000 if prop == 'C19' else 150000) if q else 1200000)] +
                  ([] if q else [g2_jobs('hash', 60000, variant='rel'), g3_jobs('hash', 400000)]),
             py=[] if q else [g3_stats('hash')],
             rule=rule + ' Distinct = distinct case bytes.',
